@@ -242,6 +242,9 @@ func innerMapID(inner ssa.Value, f *ssa.Function, depth int) string {
 	if depth > 4 {
 		return "?"
 	}
+	if id, _, ok := subMapFromHelper(inner); ok {
+		return keyProv(id, f, 0)
+	}
 	switch x := resolve(inner).(type) {
 	case *ssa.Lookup:
 		if strings.HasSuffix(accessPath(x.X), ".Envelopes") {
@@ -411,6 +414,11 @@ func ruleC13ReadsHitBackend(c *Ctx) {
 				case "memory":
 					if lk, ok := i.(*ssa.Lookup); ok {
 						return strings.HasSuffix(accessPath(lk.X), ".Envelopes")
+					}
+					if cv, ok := i.(*ssa.Call); ok {
+						if _, isH := subMapHelper(staticCallee(cv)); isH {
+							return true
+						}
 					}
 				case "sql":
 					return staticIs(i, "(*database/sql.DB).QueryRowContext") || staticIs(i, "(*database/sql.DB).QueryContext")
